@@ -19,6 +19,8 @@ def oracle_c01(e, out):
   pr = oracles.qparams_prepareable(out.model)
   e.check('C01.quantization_parameters_accepted_by_interpreter_builder',
           not pr, info=pr[:4])
+  pr = oracles.fc_shapes_consistent(out.model)
+  e.check('C01.fully_connected_filter_shape', not pr, info=pr[:4])
 
 
 def oracle_c02(e, out):
@@ -47,7 +49,8 @@ ORACLES = {'C01': oracle_c01, 'C02': oracle_c02, 'C03': oracle_c03,
 CONCRETE = {
     'C01': lambda out: [] if out.raised is not None else (
         oracles.well_formed(out.model) + oracles.dtype_consistent(out.model)
-        + oracles.qparams_prepareable(out.model)),
+        + oracles.qparams_prepareable(out.model)
+        + oracles.fc_shapes_consistent(out.model)),
     'C02': lambda out: [] if out.raised is not None else oracles.skeleton_iso(
         out.input_model, out.model, P.io_quantized(out)),
     'C03': lambda out: [] if out.raised is not None else oracles.modes(
@@ -97,7 +100,27 @@ def job_skeleton(job):
 # library refuses model-wide duplicate tensor names by design, and the
 # converter gives activations buffer 0 or a buffer of their own
 NOT_CONVERTER_NORMAL_FORM = ('two_subgraphs_same_constant_name',
+                             'three_subgraphs_same_constant_name_nonadjacent',
+                             'fc_weight_is_output',
+                             'weight_shared_with_unsupported_op',
                              'activations_share_empty_buffer')
+
+
+def job_blockwise(job):
+  """C01 only: the emulated-subchannel rewrite (blockwise weights, accepted
+  with skip_checks) on FULLY_CONNECTED variants."""
+  st = Stats()
+  cands, inconc, samples = [], [], []
+  for name, (mb, recipe) in P.blockwise_cases().items():
+    en, cs = P.explore_case(name, 'blockwise', mb, recipe, ORACLES['C01'])
+    st.merge(en.stats)
+    cands += cs
+    inconc += [f'{name}: {x}' for x in en.inconclusive]
+    if len(samples) < 2:
+      samples.append(f'{name}: {en.stats.paths} paths')
+  for c in cands:
+    c.job = job.name
+  return JobResult(job.name, st.as_dict(), cands, inconc, {}, samples=samples)
 
 
 def make_jobs(prop, tier):
@@ -105,6 +128,8 @@ def make_jobs(prop, tier):
   js = [Job(f'skel:{name}', job_skeleton,
             {'prop': prop, 'skeleton': name, 'tier': tier}) for name in fam
         if not (prop == 'C08' and name in NOT_CONVERTER_NORMAL_FORM)]
+  if prop == 'C01':
+    js.append(Job('skel:blockwise', job_blockwise, {}))
   if tier == 'thorough':
     # seeded family of random DAGs with 2-4 operators (the seed is VERIF_SEED)
     for name in P.skeleton_family('thorough_dags'):
